@@ -2,7 +2,7 @@
    REPAIRED code (fx = true) over every schedule, and the C09 clauses they give.  The behaviour of
    the code as it is (fx = false) is refuted in C09_Witness.v. *)
 From Coq Require Import ZArith List Bool Arith Lia.
-From PV Require Import Base.U64 C09.C09_Common C09.C09_Unbuf.
+From PV Require Import Base.U64 C09.C09_Common C09.C09_Unbuf C09.C09_BufProofs.
 Import ListNotations.
 Local Open Scope Z_scope.
 
@@ -186,7 +186,7 @@ Proof.
        end.
   all: inversion H; subst; clear H.
   all: first [ solve [exists false;
-                      rewrite ?goto_core, ?ret_send_core, ?ret_recv_core, ?finish_core, ?unlock_core, ?wait_s_core, ?wait_r_core,
+                      repeat progress rewrite ?goto_core, ?ret_send_core, ?ret_recv_core, ?finish_core, ?unlock_core, ?wait_s_core, ?wait_r_core,
                               ?deposit_core, ?take_core, ?notify_all_s_core, ?notify_all_r_core, ?notify_one_s_core,
                               ?notify_one_r_core, ?set_u_w_core, ?set_u_sw_core, ?set_u_rw_core, ?set_u_slot_core,
                               ?set_u_cnt_core, ?set_u_closed_core, ?lock_core, ?unlock_core, ?take_core, ?lock_core; reflexivity]
@@ -194,5 +194,395 @@ Proof.
                       rewrite ?goto_core, ?ret_send_core, ?ret_recv_core, ?finish_core, ?unlock_core,
                               ?set_u_w_core, ?lock_core; reflexivity]
              | idtac "REMAINING" ].
-  all: idtac. Show.
-Abort.
+Qed.
+
+Lemma utimer_core s t s' : utimer s t = Some s' -> ucore_of s' = ucore_of s.
+Proof.
+  unfold utimer. destruct (u_w s t); try discriminate. destruct (_ <=? _); [|discriminate].
+  intros H; inversion H; reflexivity.
+Qed.
+
+(* ---- the invariant (repaired code) ------------------------------------------------------------ *)
+Definition holds (p : upc) : bool :=
+  match p with US_l1 _ _ | US_ck _ _ | US_l2 _ _ _ | US_rt _ _ _ | UR_l _ | UTS_ck _ => true | _ => false end.
+Inductive phase : Type := Pre | Post (q : nat).
+Definition usending (p : upc) : option (val * phase) :=
+  match p with
+  | US_lock v _ | US_l1 v _ | US_w1 v _ | US_ck v _ | UTS_lock v | UTS_ck v => Some (v, Pre)
+  | US_l2 v _ q | US_w2 v _ q | US_rt v _ q => Some (v, Post q)
+  | _ => None
+  end.
+(* what has been deposited and not withdrawn: the values taken, then the one in the slot *)
+Definition chan (c : ucore) : list val := uc_taken c ++ opt_list (uc_slot c).
+Definition udone (c : ucore) (t : tid) : nat :=
+  match usending (uc_pc c t) with Some _ => pred (uc_cnt c t) | None => uc_cnt c t end.
+
+Definition usend_ev_ok (c : ucore) (e : event) : Prop :=
+  is_sendk (e_k e) = true ->
+  exists n, e_v e = Some (e_t e, n) /\ (n < udone c (e_t e))%nat /\
+            (e_r e = ROk -> e_k e = KSend -> In (e_t e, n) (uc_taken c)) /\
+            (e_r e = ROk -> In (e_t e, n) (chan c)) /\
+            (e_r e = RTimeout \/ e_r e = RNo -> ~ In (e_t e, n) (chan c)).
+
+(* facts a thread holding the mutex has established at its current pc *)
+Definition local_ok (c : ucore) (p : upc) : Prop :=
+  match p with
+  | US_ck _ _ => uc_closed c = true \/ uc_slot c = None
+  | US_rt _ _ q => q <> uc_seq c \/ uc_closed c = true
+  | _ => True
+  end.
+
+Record UInv (c : ucore) : Prop := mkUInv {
+  u_mx : forall t, holds (uc_pc c t) = true <-> uc_mtx c = Some t;
+  u_ck : forall t, local_ok c (uc_pc c t);
+  u_val : forall t v ph, usending (uc_pc c t) = Some (v, ph) ->
+            v = (t, pred (uc_cnt c t)) /\ (0 < uc_cnt c t)%nat /\
+            match ph with
+            | Pre => ~ In v (chan c)
+            | Post q => (q = uc_seq c /\ uc_slot c = Some v /\ ~ In v (uc_taken c)) \/
+                        ((q < uc_seq c)%nat /\ In v (uc_taken c))
+            end;
+  u_bound : forall t n, In (t, n) (chan c) -> (n < uc_cnt c t)%nat;
+  u_nodup : NoDup (chan c);
+  u_logok : Forall (usend_ev_ok c) (uc_log c);
+  u_sorted : sender_sorted (chan c);
+  u_recv : recv_vals (uc_log c) = rev (uc_taken c);
+  u_closedr : Forall (fun e => e_r e = RClosed -> uc_closed c = true) (uc_log c)
+}.
+
+Lemma uinv_init progs now0 : UInv (ucore_of (u_init progs now0)).
+Proof.
+  constructor; cbn; try discriminate; try constructor; try contradiction; try discriminate.
+  - intros l1 x l2 H. destruct l1; discriminate.
+Qed.
+
+Lemma usend_ev_ok_ext c c' :
+  uc_taken c' = uc_taken c -> uc_slot c' = uc_slot c -> (forall t, udone c t <= udone c' t)%nat ->
+  forall e, usend_ev_ok c e -> usend_ev_ok c' e.
+Proof.
+  intros Ht Hs Hd e H Hk. destruct (H Hk) as (n & A & B & C). exists n. unfold chan in *. rewrite Ht, Hs.
+  split; auto. split; auto. specialize (Hd (e_t e)). lia.
+Qed.
+
+(* changes of the counters / clock / closed flag *)
+Lemma uinv_frame c c' :
+  UInv c -> uc_pc c' = uc_pc c -> uc_cnt c' = uc_cnt c -> uc_slot c' = uc_slot c -> uc_seq c' = uc_seq c ->
+  uc_taken c' = uc_taken c -> uc_log c' = uc_log c -> uc_mtx c' = uc_mtx c ->
+  (uc_closed c = true -> uc_closed c' = true) -> UInv c'.
+Proof.
+  intros I H1 H2 H3 H4 H5 H6 H7 H8. destruct I.
+  assert (Hd : forall t, udone c' t = udone c t) by (intros; unfold udone; rewrite H1, H2; reflexivity).
+  assert (Hc : chan c' = chan c) by (unfold chan; rewrite H3, H5; reflexivity).
+  constructor; rewrite ?Hc, ?H1, ?H2, ?H3, ?H4, ?H5, ?H6, ?H7; auto.
+  - intros t. specialize (u_ck0 t). unfold local_ok in *. rewrite H3, H4. destruct (uc_pc c t); auto; destruct u_ck0; auto.
+  - eapply Forall_impl; [|exact u_logok0]. apply usend_ev_ok_ext; auto. intros; rewrite Hd; lia.
+  - eapply Forall_impl; [|exact u_closedr0]. cbn. auto.
+Qed.
+Lemma uinv_sw c x : UInv c -> UInv (k_sw c x). Proof. intros; eapply uinv_frame; eauto. Qed.
+Lemma uinv_rw c x : UInv c -> UInv (k_rw c x). Proof. intros; eapply uinv_frame; eauto. Qed.
+Lemma uinv_now c x : UInv c -> UInv (k_now c x). Proof. intros; eapply uinv_frame; eauto. Qed.
+Lemma uinv_closed c : UInv c -> UInv (k_closed c). Proof. intros; eapply uinv_frame; eauto. Qed.
+
+Lemma udone_goto c t p t0 m :
+  usending p = usending (uc_pc c t) -> udone (k_goto (k_mtx c m) t p) t0 = udone c t0.
+Proof.
+  intros H. unfold udone. cbn. unfold upd. destruct (Nat.eqb_spec t0 t); [subst; rewrite H|]; reflexivity.
+Qed.
+
+(* t moves inside one phase of its call, taking (a free) / keeping / releasing the mutex *)
+Lemma uinv_move c t p m :
+  UInv c -> usending p = usending (uc_pc c t) ->
+  (uc_mtx c = None \/ uc_mtx c = Some t) ->
+  m = (if holds p then Some t else None) ->
+  local_ok c p ->
+  UInv (k_goto (k_mtx c m) t p).
+Proof.
+  intros I Hs Hm Em Hck. destruct I.
+  assert (Hoth : forall t0, t0 <> t -> holds (uc_pc c t0) = false).
+  { intros t0 Hne. destruct (holds (uc_pc c t0)) eqn:E; auto. apply u_mx0 in E.
+    destruct Hm as [Hm|Hm]; rewrite Hm in E; [discriminate|inversion E; congruence]. }
+  constructor; cbn; auto.
+  - intros t0. unfold upd. destruct (Nat.eqb_spec t0 t).
+    + subst. destruct (holds p); split; auto; discriminate.
+    + rewrite (Hoth _ n). split; [discriminate|]. subst m. destruct (holds p); intros E; inversion E. congruence.
+  - intros t0. unfold upd. destruct (Nat.eqb_spec t0 t); [exact Hck|apply u_ck0].
+  - intros t0 v ph. unfold upd. destruct (Nat.eqb_spec t0 t); [subst; rewrite Hs|]; apply u_val0.
+  - eapply Forall_impl; [|exact u_logok0]. apply usend_ev_ok_ext; auto.
+    intros t0. rewrite udone_goto; auto.
+Qed.
+
+Lemma udone_goto0 c t p t0 :
+  usending p = usending (uc_pc c t) -> udone (k_goto c t p) t0 = udone c t0.
+Proof.
+  intros H. unfold udone. cbn. unfold upd. destruct (Nat.eqb_spec t0 t); [subst; rewrite H|]; reflexivity.
+Qed.
+
+Lemma uinv_goto c t p :
+  UInv c -> usending p = usending (uc_pc c t) -> holds p = holds (uc_pc c t) ->
+  local_ok c p ->
+  UInv (k_goto c t p).
+Proof.
+  intros I Hs Hh Hck. destruct I. constructor; cbn; auto.
+  - intros t0. unfold upd. destruct (Nat.eqb_spec t0 t); [subst; rewrite Hh|]; apply u_mx0.
+  - intros t0. unfold upd. destruct (Nat.eqb_spec t0 t); [exact Hck|apply u_ck0].
+  - intros t0 v ph. unfold upd. destruct (Nat.eqb_spec t0 t); [subst; rewrite Hs|]; apply u_val0.
+  - eapply Forall_impl; [|exact u_logok0]. apply usend_ev_ok_ext; auto.
+    intros t0. rewrite udone_goto0; auto.
+Qed.
+
+Lemma uinv_start c t p :
+  UInv c -> uc_pc c t = UIdle -> usending p = Some ((t, uc_cnt c t), Pre) -> holds p = false ->
+  holds p = false -> UInv (k_goto (k_cnt c t) t p).
+Proof.
+  intros I Hi Hs Hh Hck. destruct I. constructor; cbn; auto.
+  - intros t0. unfold upd. destruct (Nat.eqb_spec t0 t); [subst; rewrite Hh|apply u_mx0].
+    specialize (u_mx0 t). rewrite Hi in u_mx0. cbn in u_mx0. exact u_mx0.
+  - intros t0. unfold upd. destruct (Nat.eqb_spec t0 t); [destruct p; try exact I; discriminate|apply u_ck0].
+  - intros t0 v ph. unfold upd. destruct (Nat.eqb_spec t0 t).
+    + subst. rewrite Hs. intros E; inversion E; subst. cbn. repeat split; try lia.
+      intros Hin. apply u_bound0 in Hin. lia.
+    + apply u_val0.
+  - intros t0 n Hin. unfold upd. destruct (Nat.eqb_spec t0 t); [subst; apply u_bound0 in Hin; lia|auto].
+  - eapply Forall_impl; [|exact u_logok0]. apply usend_ev_ok_ext; auto.
+    intros t0. unfold udone. cbn. unfold upd. destruct (Nat.eqb_spec t0 t); [|lia].
+    subst. rewrite Hs, Hi. cbn. lia.
+Qed.
+
+Lemma chan_slot_none c : uc_slot c = None -> chan c = uc_taken c.
+Proof. intros H. unfold chan. rewrite H. apply app_nil_r. Qed.
+
+(* the value of t goes into the (empty) slot; t continues at p (phase Post) or returns from
+   try_send; handled by the two lemmas below through this core fact *)
+Lemma uinv_deposit_val c t v :
+  UInv c -> usending (uc_pc c t) = Some (v, Pre) -> uc_slot c = None ->
+  let c1 := k_slot c (Some v) in
+  chan c1 = uc_taken c ++ [v] /\ NoDup (chan c1) /\ sender_sorted (chan c1) /\
+  (forall t0 n, In (t0, n) (chan c1) -> (n < uc_cnt c t0)%nat) /\
+  ~ In v (uc_taken c) /\
+  (forall t0 v0 ph, t0 <> t -> usending (uc_pc c t0) = Some (v0, ph) -> v0 <> v).
+Proof.
+  intros I Hs Hn c1. pose proof I as I0. destruct I.
+  destruct (u_val0 _ _ _ Hs) as (Ev & Hpos & Hnin). rewrite (chan_slot_none _ Hn) in *.
+  assert (Hc : chan c1 = uc_taken c ++ [v]) by reflexivity.
+  split; [exact Hc|]. rewrite Hc. split; [apply NoDup_app_single; auto|]. split; [|split; [|split]].
+  - intros l1 x l2 E y Hy Hf.
+    destruct l2 as [|z l2'] using rev_ind.
+    + apply app_inj_tail in E. destruct E as [E1 E2]. subst l1 x.
+      destruct y as [ty ny]. rewrite Ev in Hf. cbn in Hf. subst ty. rewrite Ev. cbn.
+      pose proof (u_bound0 _ _ Hy). assert (ny <> pred (uc_cnt c t)) by (intros ->; apply Hnin; rewrite Ev; exact Hy). lia.
+    + clear IHl2'. rewrite app_comm_cons, app_assoc in E. apply app_inj_tail in E. destruct E as [E1 E2].
+      eapply u_sorted0; eauto.
+  - intros t0 n Hin. apply in_app_single in Hin. destruct Hin as [Hin|Hin]; auto.
+    rewrite Ev in Hin. inversion Hin; subst. lia.
+  - exact Hnin.
+  - intros t0 v0 ph Hne E. destruct (u_val0 _ _ _ E) as (Ev0 & _). rewrite Ev0, Ev. intros X; inversion X. congruence.
+Qed.
+
+Lemma chan_goto c t p : chan (k_goto c t p) = chan c. Proof. reflexivity. Qed.
+Lemma chan_finish c t k v r e : chan (k_finish c t k v r e) = chan c. Proof. reflexivity. Qed.
+Lemma chan_mtx c m : chan (k_mtx c m) = chan c. Proof. reflexivity. Qed.
+
+Lemma others_not_holding c t : UInv c -> (uc_mtx c = None \/ uc_mtx c = Some t) ->
+  forall t0, t0 <> t -> holds (uc_pc c t0) = false.
+Proof.
+  intros I Hm t0 Hne. destruct (holds (uc_pc c t0)) eqn:E; auto. apply (u_mx _ I) in E.
+  destruct Hm as [Hm|Hm]; rewrite Hm in E; [discriminate|inversion E; congruence].
+Qed.
+
+(* US_ck -> US_l2: the sender (holding the mutex) places its value in the empty slot *)
+Lemma uinv_deposit_go c t v e :
+  UInv c -> uc_pc c t = US_ck v e -> uc_closed c = false ->
+  UInv (k_goto (k_slot c (Some v)) t (US_l2 v e (uc_seq c))).
+Proof.
+  intros I Epc Hcl. pose proof I as I0. destruct I.
+  assert (Hs : usending (uc_pc c t) = Some (v, Pre)) by (rewrite Epc; reflexivity).
+  assert (Hn : uc_slot c = None) by (destruct (u_ck0 _ _ _ Epc); congruence).
+  assert (Hm : uc_mtx c = Some t) by (apply u_mx0; rewrite Epc; reflexivity).
+  destruct (uinv_deposit_val c t v I0 Hs Hn) as (Hc & Hnd & Hso & Hbd & Hnt & Hov).
+  destruct (u_val0 _ _ _ Hs) as (Ev & Hpos & _).
+  pose proof (others_not_holding c t I0 (or_intror Hm)) as Hoth.
+  constructor; auto.
+  - cbn. intros t0. unfold upd. destruct (Nat.eqb_spec t0 t); [subst; cbn; tauto|apply u_mx0].
+  - cbn. intros t0 v0 e0. unfold upd. destruct (Nat.eqb_spec t0 t); [discriminate|].
+    intros E. specialize (Hoth _ n). rewrite E in Hoth. discriminate.
+  - intros t0 v0 ph. cbn [uc_pc k_goto k_slot uc_cnt uc_seq uc_slot uc_taken]. unfold upd.
+    destruct (Nat.eqb_spec t0 t).
+    + subst. cbn. intros E; inversion E; subst. repeat split; auto.
+    + intros E. destruct (u_val0 _ _ _ E) as (A & B & C). repeat split; auto. destruct ph.
+      * rewrite chan_goto, Hc. rewrite (chan_slot_none _ Hn) in C.
+        intros X. apply in_app_single in X. destruct X as [X|X]; [auto|]. eapply Hov; eauto.
+      * destruct C as [(C1 & C2 & C3)|C]; [congruence|]. right. exact C.
+  - eapply Forall_impl; [|exact u_logok0]. intros ev H Hk. destruct (H Hk) as (n & A & B & C1 & C2 & C3).
+    exists n. split; [exact A|]. split.
+    { unfold udone in *. cbn. unfold upd. destruct (Nat.eqb_spec (e_t ev) t) as [Eq|Ne]; [|exact B].
+      rewrite Eq in *. rewrite Hs in B. cbn. exact B. }
+    split; [exact C1|]. rewrite chan_goto, Hc. rewrite (chan_slot_none _ Hn) in *.
+    split; [intros X; apply in_app_single; left; auto|].
+    intros X Y. apply in_app_single in Y. destruct Y as [Y|Y]; [exact (C3 X Y)|].
+    rewrite Ev in Y. inversion Y. subst n. unfold udone in B. rewrite H1, Hs in B. lia.
+Qed.
+
+(* UTS_ck: try_send places its value and returns true *)
+Lemma uinv_deposit_fin c t v :
+  UInv c -> uc_pc c t = UTS_ck v -> uc_slot c = None ->
+  UInv (k_finish (k_mtx (k_slot c (Some v)) None) t KTrySend (Some v) ROk 0).
+Proof.
+  intros I Epc Hn. pose proof I as I0. destruct I.
+  assert (Hs : usending (uc_pc c t) = Some (v, Pre)) by (rewrite Epc; reflexivity).
+  assert (Hm : uc_mtx c = Some t) by (apply u_mx0; rewrite Epc; reflexivity).
+  destruct (uinv_deposit_val c t v I0 Hs Hn) as (Hc & Hnd & Hso & Hbd & Hnt & Hov).
+  destruct (u_val0 _ _ _ Hs) as (Ev & Hpos & _).
+  pose proof (others_not_holding c t I0 (or_intror Hm)) as Hoth.
+  constructor; auto.
+  - cbn. intros t0. unfold upd. destruct (Nat.eqb_spec t0 t); [subst; cbn; split; discriminate|].
+    rewrite (Hoth _ n). split; discriminate.
+  - cbn. intros t0 v0 e0. unfold upd. destruct (Nat.eqb_spec t0 t); [discriminate|].
+    intros E. specialize (Hoth _ n). rewrite E in Hoth. discriminate.
+  - intros t0 v0 ph. cbn [uc_pc k_finish k_mtx k_slot uc_cnt uc_seq uc_slot uc_taken]. unfold upd.
+    destruct (Nat.eqb_spec t0 t); [discriminate|].
+    intros E. destruct (u_val0 _ _ _ E) as (A & B & C). repeat split; auto. destruct ph.
+    + rewrite chan_finish, chan_mtx, Hc. rewrite (chan_slot_none _ Hn) in C.
+      intros X. apply in_app_single in X. destruct X as [X|X]; [auto|]. eapply Hov; eauto.
+    + destruct C as [(C1 & C2 & C3)|C]; [congruence|]. right. exact C.
+  - cbn [uc_log k_finish]. constructor.
+    + intros _. cbn [e_t e_v e_r e_k]. exists (pred (uc_cnt c t)). rewrite <- Ev. split; [reflexivity|]. split.
+      * unfold udone. cbn. rewrite upd_same. cbn. lia.
+      * split; [discriminate|]. split; [|intros [X|X]; discriminate].
+        intros _. rewrite chan_finish, chan_mtx, Hc. apply in_app_single. auto.
+    + eapply Forall_impl; [|exact u_logok0]. intros ev H Hk. destruct (H Hk) as (n & A & B & C1 & C2 & C3).
+      exists n. split; [exact A|]. split.
+      { unfold udone in *. cbn. unfold upd. destruct (Nat.eqb_spec (e_t ev) t); [|exact B].
+        rewrite e in *. rewrite Hs in B. cbn. lia. }
+      split; [exact C1|]. rewrite chan_finish, chan_mtx, Hc. rewrite (chan_slot_none _ Hn) in *.
+      split; [intros X; apply in_app_single; left; auto|].
+      intros X Y. apply in_app_single in Y. destruct Y as [Y|Y]; [exact (C3 X Y)|].
+      rewrite Ev in Y. inversion Y. subst n. unfold udone in B. rewrite H1, Hs in B. lia.
+  - cbn. constructor; [discriminate|exact u_closedr0].
+Qed.
+
+(* a receiver (recv holding the mutex, or try_recv taking a free mutex) takes the value and returns *)
+Lemma uinv_take c t v k e :
+  UInv c -> uc_slot c = Some v -> usending (uc_pc c t) = None ->
+  (uc_mtx c = None \/ uc_mtx c = Some t) -> is_recvk k = true -> is_sendk k = false ->
+  UInv (k_finish (k_mtx (k_take c v) None) t k (Some v) ROk e).
+Proof.
+  intros I Hsl Hs Hm Hk Hk2. pose proof I as I0. destruct I.
+  pose proof (others_not_holding c t I0 Hm) as Hoth.
+  assert (Hc : chan c = uc_taken c ++ [v]) by (unfold chan; rewrite Hsl; reflexivity).
+  assert (Hc' : chan (k_finish (k_mtx (k_take c v) None) t k (Some v) ROk e) = uc_taken c ++ [v])
+    by (unfold chan; cbn; apply app_nil_r).
+  constructor; rewrite ?Hc'; try (rewrite <- Hc; assumption).
+  - cbn. intros t0. unfold upd. destruct (Nat.eqb_spec t0 t); [subst; cbn; split; discriminate|].
+    rewrite (Hoth _ n). split; discriminate.
+  - cbn. intros t0 v0 e0. unfold upd. destruct (Nat.eqb_spec t0 t); [discriminate|].
+    intros E. specialize (Hoth _ n). rewrite E in Hoth. discriminate.
+  - intros t0 v0 ph E. cbn in E. unfold upd in E.
+    destruct (Nat.eqb_spec t0 t); [discriminate|].
+    destruct (u_val0 _ _ _ E) as (A & B & C). split; [exact A|]. split; [exact B|]. destruct ph.
+    + rewrite <- Hc. exact C.
+    + right. cbn. destruct C as [(C1 & C2 & C3)|(C1 & C2)].
+      * rewrite Hsl in C2. inversion C2. subst. split; [lia|]. apply in_app_single. auto.
+      * split; [lia|]. apply in_app_single. auto.
+  - cbn [uc_log k_finish]. constructor; [intros X; cbn in X; congruence|].
+    eapply Forall_impl; [|exact u_logok0]. intros ev H Hke. destruct (H Hke) as (n & A & B & C1 & C2 & C3).
+    exists n. split; [exact A|]. split.
+    { unfold udone in *. cbn. unfold upd. destruct (Nat.eqb_spec (e_t ev) t) as [Eq|Ne]; [|exact B].
+      rewrite Eq in *. rewrite Hs in B. cbn. exact B. }
+    rewrite Hc', <- Hc. cbn [uc_taken k_finish k_mtx k_take]. split; [|split; assumption].
+    intros X Y. apply in_app_single. left. auto.
+  - cbn. rewrite Hk. cbn. rewrite u_recv0, rev_app_distr. reflexivity.
+  - cbn. constructor; [discriminate|exact u_closedr0].
+Qed.
+
+(* the sender's Timeout expires while its value is still in the slot: it withdraws the value *)
+Lemma uinv_withdraw c t v e q :
+  UInv c -> uc_pc c t = US_l2 v e q -> q = uc_seq c ->
+  UInv (k_finish (k_mtx (k_slot c None) None) t KSend (Some v) RTimeout e).
+Proof.
+  intros I Epc Hq. pose proof I as I0. destruct I.
+  assert (Hs : usending (uc_pc c t) = Some (v, Post q)) by (rewrite Epc; reflexivity).
+  assert (Hm : uc_mtx c = Some t) by (apply u_mx0; rewrite Epc; reflexivity).
+  pose proof (others_not_holding c t I0 (or_intror Hm)) as Hoth.
+  destruct (u_val0 _ _ _ Hs) as (Ev & Hpos & [(_ & Hsl & Hnt)|(Hlt & _)]); [|lia].
+  assert (Hc : chan c = uc_taken c ++ [v]) by (unfold chan; rewrite Hsl; reflexivity).
+  assert (Hc' : chan (k_finish (k_mtx (k_slot c None) None) t KSend (Some v) RTimeout e) = uc_taken c)
+    by (unfold chan; cbn; apply app_nil_r).
+  assert (Hsub : forall x, In x (uc_taken c) -> In x (chan c)) by (intros; rewrite Hc; apply in_app_single; auto).
+  constructor; rewrite ?Hc'.
+  - cbn. intros t0. unfold upd. destruct (Nat.eqb_spec t0 t); [subst; cbn; split; discriminate|].
+    rewrite (Hoth _ n). split; discriminate.
+  - cbn. intros t0 v0 e0. unfold upd. destruct (Nat.eqb_spec t0 t); [discriminate|].
+    intros E. specialize (Hoth _ n). rewrite E in Hoth. discriminate.
+  - intros t0 v0 ph E. cbn in E. unfold upd in E.
+    destruct (Nat.eqb_spec t0 t); [discriminate|].
+    destruct (u_val0 _ _ _ E) as (A & B & C). split; [exact A|]. split; [exact B|]. destruct ph.
+    + intros X. apply C. auto.
+    + cbn. destruct C as [(C1 & C2 & C3)|C]; [|right; exact C].
+      exfalso. assert (Hv : v0 = v) by congruence. rewrite A, Ev in Hv. inversion Hv. congruence.
+  - intros t0 n Hin. apply u_bound0. auto.
+  - rewrite Hc in u_nodup0. apply NoDup_remove_1 in u_nodup0. rewrite app_nil_r in u_nodup0. exact u_nodup0.
+  - cbn [uc_log k_finish]. constructor.
+    + intros _. cbn [e_t e_v e_r e_k]. exists (pred (uc_cnt c t)). rewrite <- Ev. split; [reflexivity|]. split.
+      * unfold udone. cbn. rewrite upd_same. cbn. lia.
+      * rewrite Hc'. split; [discriminate|]. split; [discriminate|]. intros _. exact Hnt.
+    + eapply Forall_impl; [|exact u_logok0]. intros ev H Hke. destruct (H Hke) as (n & A & B & C1 & C2 & C3).
+      exists n. split; [exact A|]. split.
+      { unfold udone in *. cbn. unfold upd. destruct (Nat.eqb_spec (e_t ev) t) as [Eq|Ne]; [|exact B].
+        rewrite Eq in *. rewrite Hs in B. cbn. lia. }
+      rewrite Hc'. cbn [uc_taken k_finish k_mtx k_slot]. split; [exact C1|]. split.
+      * intros X. specialize (C2 X). rewrite Hc in C2. apply in_app_single in C2. destruct C2 as [C2|C2]; [exact C2|].
+        exfalso. rewrite Ev in C2. inversion C2. subst n. unfold udone in B. rewrite H1, Hs in B. lia.
+      * intros X Y. apply (C3 X). auto.
+  - intros l1 x l2 E y Hy Hf. eapply (u_sorted0 l1 x (l2 ++ [v])); eauto. rewrite Hc, E, <- app_assoc. reflexivity.
+  - cbn. exact u_recv0.
+  - cbn. constructor; [discriminate|exact u_closedr0].
+Qed.
+
+(* an operation returns without touching the slot *)
+Lemma uinv_finish_gen c c1 t k ov r e :
+  UInv c ->
+  uc_pc c1 = uc_pc c -> uc_cnt c1 = uc_cnt c -> uc_slot c1 = uc_slot c -> uc_seq c1 = uc_seq c ->
+  uc_taken c1 = uc_taken c -> uc_log c1 = uc_log c -> uc_closed c1 = uc_closed c ->
+  ((uc_mtx c1 = None /\ (uc_mtx c = None \/ uc_mtx c = Some t)) \/
+   (uc_mtx c1 = uc_mtx c /\ holds (uc_pc c t) = false)) ->
+  match usending (uc_pc c t) with
+  | Some (v, ph) => is_sendk k = true /\ ov = Some v /\
+                    (r = ROk -> (k = KSend -> In v (uc_taken c)) /\ In v (chan c)) /\
+                    (r = RTimeout \/ r = RNo -> ~ In v (chan c))
+  | None => is_sendk k = false
+  end ->
+  (is_recvk k = true -> r <> ROk) ->
+  (r = RClosed -> uc_closed c = true) ->
+  UInv (k_finish c1 t k ov r e).
+Proof.
+  intros I H1 H2 H3 H4 H5 H6 H7 Hm Hs Hr Hc. pose proof I as I0. destruct I.
+  assert (Hch : chan (k_finish c1 t k ov r e) = chan c) by (unfold chan; cbn; rewrite H3, H5; reflexivity).
+  constructor; rewrite ?Hch; auto.
+  - cbn. intros t0. unfold upd. destruct (Nat.eqb_spec t0 t).
+    + subst. cbn. split; [discriminate|]. intros E. destruct Hm as [[Hm _]|[Hm Hh]]; [congruence|].
+      rewrite Hm in E. apply u_mx0 in E. congruence.
+    + rewrite H1. destruct Hm as [[Hm Hm2]|[Hm Hh]].
+      * rewrite Hm. rewrite (others_not_holding c t I0 Hm2 _ n). split; discriminate.
+      * rewrite Hm. apply u_mx0.
+  - cbn. intros t0 v0 e0. unfold upd. destruct (Nat.eqb_spec t0 t); [discriminate|].
+    rewrite H1, H7, H3. apply u_ck0.
+  - intros t0 v0 ph E. cbn in E. unfold upd in E. destruct (Nat.eqb_spec t0 t); [discriminate|].
+    rewrite H1 in E. destruct (u_val0 _ _ _ E) as (A & B & C). cbn. rewrite H2, H3, H4, H5.
+    split; [exact A|]. split; [exact B|]. destruct ph; auto.
+  - cbn. rewrite H2. exact u_bound0.
+  - cbn [uc_log k_finish]. rewrite H6. constructor.
+    + intros Hk. cbn in Hk. cbn [e_t e_v e_r e_k].
+      destruct (usending (uc_pc c t)) as [[v ph]|] eqn:Es; [|congruence].
+      destruct Hs as (_ & -> & Hok & Hno). destruct (u_val0 _ _ _ Es) as (Ev & Hpos & _).
+      exists (pred (uc_cnt c t)). rewrite <- Ev. split; [reflexivity|]. split.
+      * unfold udone. cbn. rewrite upd_same. cbn. rewrite H2. lia.
+      * rewrite Hch. cbn. rewrite H5. split; [intros X Y; apply (Hok X); exact Y|]. split; [apply Hok|exact Hno].
+    + eapply Forall_impl; [|exact u_logok0]. intros ev H Hke. destruct (H Hke) as (n & A & B & C).
+      exists n. split; [exact A|]. split.
+      { unfold udone in *. cbn. unfold upd. rewrite H1, H2. destruct (Nat.eqb_spec (e_t ev) t) as [Eq|Ne]; [|exact B].
+        rewrite Eq in *. cbn. destruct (usending (uc_pc c t)); lia. }
+      rewrite Hch. cbn. rewrite H5. exact C.
+  - cbn. rewrite H6, H5. destruct (is_recvk k) eqn:Ek; cbn; [|exact u_recv0].
+    destruct r; cbn; try exact u_recv0. exfalso. apply Hr; reflexivity.
+  - cbn. rewrite H6, H7. constructor; [exact Hc|exact u_closedr0].
+Qed.
